@@ -229,6 +229,11 @@ func (e *Engine) addPC(c *Term) {
 		d.and(tt)
 		// single-variable facts live in the domain; the solver still needs them
 		// when the variable is (or becomes) entangled, so they stay in pc too
+		if c.sv.Op != OpVar {
+			for _, v := range e.st.VarsOf(c) {
+				e.entangled[v] = true
+			}
+		}
 	} else {
 		for _, v := range e.st.VarsOf(c) {
 			e.entangled[v] = true
@@ -320,10 +325,8 @@ func (e *Engine) truthTable(c *Term) *bitset256 {
 	}
 	var b bitset256
 	n := 1 << uint(c.sv.W)
-	env := map[string]uint64{}
 	for x := 0; x < n; x++ {
-		env[c.sv.Name] = uint64(x)
-		if e.st.Eval(c, env, nil) != 0 {
+		if e.st.EvalLeaf(c, nil, nil, c.sv, uint64(x)) != 0 {
 			b[x>>6] |= 1 << uint(x&63)
 		}
 	}
@@ -349,7 +352,7 @@ func (e *Engine) domDecide(c *Term) int {
 	if d.disjoint(tt) {
 		return -1
 	}
-	if !e.entangled[c.sv.ID] {
+	if c.sv.Op == OpVar && !e.entangled[c.sv.ID] {
 		return 2
 	}
 	return 0
@@ -445,6 +448,38 @@ func (e *Engine) check(extra ...*Term) Result {
 	return e.sv.Check(lits)
 }
 
+// escalate re-decides pc ∧ extra with a fresh, non-incremental solver run
+// (z3's default tactic pipeline) under the long timeout.
+func (e *Engine) escalate(extra *Term) Result {
+	roots := map[int]bool{}
+	for _, v := range e.st.VarsOf(extra) {
+		roots[e.find(v)] = true
+	}
+	var lits []*Term
+	for k, l := range e.pc {
+		r := e.pcRep[k]
+		if r < 0 || roots[e.find(r)] {
+			lits = append(lits, l)
+		}
+	}
+	lits = append(lits, extra)
+	if dumpDir != "" {
+		if f, err := os.CreateTemp(dumpDir, "escalate-*.smt2"); err == nil {
+			DumpQuery(e.st, lits, f)
+			f.Close()
+		}
+	}
+	r, d := RunStandalone(e.st, lits, e.cfg.Solver, e.cfg.AssertTimeout)
+	e.x.mu.Lock()
+	e.x.StandaloneN++
+	e.x.SolverWall += d
+	e.x.Notes["escalated-feasibility-"+r.String()]++
+	e.x.mu.Unlock()
+	return r
+}
+
+var dumpDir = os.Getenv("GOSYM_DUMPDIR")
+
 func (e *Engine) checkFull(extra ...*Term) Result {
 	lits := make([]*Term, 0, len(e.pc)+len(extra))
 	lits = append(lits, e.pc...)
@@ -524,11 +559,17 @@ func (e *Engine) branch(c *Term) bool {
 		fmt.Fprintf(os.Stderr, "SOLVER-BRANCH sv=%v size=%d %s\n  at %s\n", c.sv != nil, c.size, truncate(c.String(), 300), e.where())
 	}
 	rT := e.check(c)
+	if rT == Unknown {
+		rT = e.escalate(c)
+	}
 	if rT == Unsat {
 		e.trail = append(e.trail, dec{K: 'b', B: false, Forced: true})
 		return false
 	}
 	rF := e.check(nc)
+	if rF == Unknown {
+		rF = e.escalate(nc)
+	}
 	if rF == Unsat {
 		e.trail = append(e.trail, dec{K: 'b', B: true, Forced: true})
 		return true
